@@ -6,6 +6,7 @@ import (
 	"fmt"
 	"os"
 	"path/filepath"
+	"sort"
 	"time"
 
 	"gorgonia.org/tensor"
@@ -33,19 +34,20 @@ type ReplayFile struct {
 }
 
 type WorkerResult struct {
-	Property   string        `json:"property"`
-	Seed       uint64        `json:"seed"`
-	First      uint64        `json:"first"`
-	Runs       uint64        `json:"runs"`
-	Done       uint64        `json:"done"`
-	WallS      float64       `json:"wall_s"`
-	Violations []ReplayFile  `json:"violations"`
-	Replays    []string      `json:"replays"`
-	Stats      interface{}   `json:"stats"`
-	Tags       string        `json:"tags"`
-	Race       bool          `json:"race"`
-	SitesHit   []uint32      `json:"sites_hit,omitempty"`
-	Sites      int           `json:"sites"`
+	Property   string                 `json:"property"`
+	Seed       uint64                 `json:"seed"`
+	First      uint64                 `json:"first"`
+	Runs       uint64                 `json:"runs"`
+	Done       uint64                 `json:"done"`
+	WallS      float64                `json:"wall_s"`
+	Violations []ReplayFile           `json:"violations"`
+	Replays    []string               `json:"replays"`
+	Stats      interface{}            `json:"stats"`
+	Tags       string                 `json:"tags"`
+	Race       bool                   `json:"race"`
+	SitesHit   []uint32               `json:"sites_hit,omitempty"`
+	Distinct   []uint64               `json:"distinct,omitempty"` // keys of the distinct non-trivial cases (capped)
+	Sites      int                    `json:"sites"`
 	Extra      map[string]interface{} `json:"extra,omitempty"`
 }
 
@@ -65,6 +67,7 @@ var (
 	flagProgress  = flag.String("progress", "", "file to which the index of the run in flight is written")
 	flagBudgetS   = flag.Float64("budget", 0, "stop starting new runs after this many seconds (0: none)")
 	flagVerbose   = flag.Bool("v", false, "verbose")
+	flagRaceLogP  = flag.String("racelog", "", "GORACE log_path prefix (race builds)")
 )
 
 func writeJSON(path string, v interface{}) error {
@@ -81,8 +84,11 @@ func progress(run uint64) {
 	}
 }
 
+var flagRaceLog string
+
 func main() {
 	flag.Parse()
+	flagRaceLog = *flagRaceLogP
 	tensor.VerifInstall(P.Hooks())
 	tensor.VerifSetYield(func(site uint32) { S.Yield(site) }, func(site uint32) { S.Blocked(site) })
 	S.Reset(*flagSites)
@@ -110,6 +116,20 @@ func main() {
 			os.Exit(2)
 		}
 	}
+}
+
+const distinctCap = 60000
+
+func keysOf(m map[uint64]struct{}) []uint64 {
+	ks := make([]uint64, 0, len(m))
+	for k := range m {
+		ks = append(ks, k)
+	}
+	sort.Slice(ks, func(i, j int) bool { return ks[i] < ks[j] })
+	if len(ks) > distinctCap {
+		ks = ks[:distinctCap]
+	}
+	return ks
 }
 
 func overBudget(start time.Time) bool {
@@ -164,7 +184,9 @@ func workC19(res *WorkerResult, start time.Time) {
 		cc := &C19Case{Seed: mc.Seed, Config: mc.Config, Program: append([]Op(nil), mc.Program...)}
 		rv, _ := execC19(cc, nil)
 		if rv == nil || !rv.Same(mv) {
-			fmt.Fprintf(os.Stderr, "tsim: C19 run %d: minimised case did not reproduce (harness defect)\n", run)
+			fmt.Fprintf(os.Stderr, "tsim: C19 run %d: minimised case did not reproduce (harness defect)\n original: %+v\n minimised: %+v\n replayed: %+v\n", run, v, mv, rv)
+			rf := ReplayFile{Property: "C19", Violation: mv, Seed: *flagSeed, Run: run, Tags: *flagTags, C19: mc}
+			writeJSON(fmt.Sprintf("/tmp/flaky-%d-%d.json", *flagSeed, run), &rf)
 			os.Exit(2)
 		}
 		rf := ReplayFile{Property: "C19", Violation: mv, Seed: *flagSeed, Run: run, Tags: *flagTags, C19: mc, From: orig}
@@ -185,6 +207,7 @@ func workC19(res *WorkerResult, start time.Time) {
 		"dense_pool_full_runs": st.DenseFull, "dense_pool_rotations": st.DenseRotations,
 		"distinct_nontrivial": len(st.NontrivialDigests), "samples": st.Samples,
 	}
+	res.Distinct = keysOf(st.NontrivialDigests)
 }
 
 func doReplay(path string) int {
@@ -201,6 +224,9 @@ func doReplay(path string) int {
 	var v *Violation
 	switch {
 	case rf.C19 != nil:
+		if *flagVerbose {
+			dumpC19(rf.C19)
+		}
 		v, _ = execC19(rf.C19, nil)
 	case rf.C18 != nil:
 		v = replayC18(rf.C18)
